@@ -140,8 +140,25 @@ class EvalMixin:
             return "".join(parts)
         return Opaque("str")
 
+    def symstr_slice(self, v, lo, hi):
+        n = v.length
+
+        def norm(x, default):
+            if x is None:
+                return default
+            x = _z(x)
+            return z3.If(x < 0, sym_max(x + n, 0), sym_min(x, n))
+
+        lo2 = norm(lo, z3.IntVal(0))
+        hi2 = norm(hi, n)
+        i = z3.Int("sl!i")
+        arr = z3.Lambda([i], z3.Select(v.arr, i + lo2))
+        return SymStr(arr, sym_max(hi2 - lo2, 0))
+
     def to_str(self, v):
         v = self.resolve(v)
+        if isinstance(v, SymStr):
+            return v
         if isinstance(v, (str, int, float)) or v is None:
             return str(v)
         if isinstance(v, EnumVal):
